@@ -174,6 +174,12 @@ class Parser:
             return self.insert()
         if t[1] == 'update':
             return self.update()
+        if t[1] == 'delete':
+            self.expect_kw('delete')
+            self.expect_kw('from')
+            table = self.ident()
+            where = self.expr() if self.accept_kw('where') else None
+            return ('delete', table, where)
         if t[1] == 'create':
             return self.create()
         if t[1] == 'pragma':
@@ -1078,6 +1084,19 @@ class Cursor:
             for r in rows:
                 self._insert(t, st[2], list(r))
             self.db.log.append(('insert', st[1]))
+        elif kind == 'delete':
+            self.conn._begin()
+            t = self._table(st[1])
+            keep = []
+            for row in t.rows:
+                if st[2] is None or concrete_bool(ctx.eval(st[2], Scope([(st[1], t.colnames, row)], None))):
+                    if self.db.foreign_keys:
+                        self._check_no_children(t, row)
+                    continue
+                keep.append(row)
+            self.rowcount = len(t.rows) - len(keep)
+            t.rows = keep
+            self.db.log.append(('delete', st[1]))
         elif kind == 'update':
             self.conn._begin()
             t = self._table(st[1])
@@ -1126,6 +1145,17 @@ class Cursor:
             row[t.rowid_alias] = (max(existing) + 1) if existing else 1
         self._check_row(t, row, exclude=None)
         t.rows.append(row)
+
+    def _check_no_children(self, t, row):
+        """Foreign keys on: a referenced parent row cannot be deleted."""
+        for child in self.db.tables.values():
+            for cols, rt, rcols in child.fks:
+                if rt != t.name:
+                    continue
+                rc = rcols or t.pk
+                for cr in child.rows:
+                    if all(cr[c] is not None and same_key(cr[c], row[k]) for c, k in zip(cols, rc)):
+                        raise IntegrityError('FOREIGN KEY constraint failed')
 
     def _check_row(self, t, row, exclude):
         for c in t.cols:
@@ -1517,6 +1547,18 @@ class Ctx:
                 (to_real(inner) if affinity(e[2]) == 'REAL' else nplite.trunc(inner))
         if k in ('exists', 'subquery'):
             return self.eval(e, Scope(members[0], outer) if members else outer)
+        if k == 'call':
+            # scalar function of aggregate expressions, e.g. coalesce(max(x) - min(x) + 1, 0)
+            vals = [('lit', self.eval_agg(a, members, outer)) for a in e[2]]
+            if any(isinstance(v[1], Sym) for v in vals):
+                name = e[1]
+                raw = [v[1] for v in vals]
+                if name == 'coalesce':
+                    return next((v for v in raw if v is not None), None)
+                if name == 'abs':
+                    return None if raw[0] is None else abs(raw[0])
+                raise ShimGap('SQL function %s() of symbolic aggregates' % name)
+            return self.eval(('call', e[1], vals, e[3]), None)
         if not has_aggregate(e):
             if not members:
                 return self.eval(e, outer) if k in ('exists',) else None
